@@ -6,8 +6,24 @@ import (
 	"verifharness/oracle"
 )
 
-// Build maps an oracle formula to the bf constructors.
+// Build maps an oracle formula to the bf constructors. A tagged node is built once and the same
+// bf.Formula value is used wherever a ref points to it, the way a caller reuses a sub-formula.
 func Build(f *oracle.F) bf.Formula {
+	return build(f, map[string]bf.Formula{})
+}
+
+func build(f *oracle.F, memo map[string]bf.Formula) (res bf.Formula) {
+	if f.Op == "ref" {
+		g, ok := memo[f.Name]
+		if !ok {
+			panic("bfx: ref to a node that was not built yet: " + f.Name)
+		}
+		return g
+	}
+	if f.Tag != "" {
+		defer func() { memo[f.Tag] = res }()
+	}
+	Build := func(g *oracle.F) bf.Formula { return build(g, memo) }
 	kids := func() []bf.Formula {
 		out := make([]bf.Formula, len(f.Kids))
 		for i, k := range f.Kids {
